@@ -19,7 +19,7 @@ from pulser.backend import EmulationConfig, Observable, Results, State
 
 from emu_base import DEVICE_COUNT, SequenceData, get_max_rss
 from emu_base.math.brents_root_finding import BrentsRootFinder
-from emu_base.utils import deallocate_tensor
+from emu_base.utils import aggregation_kwargs, deallocate_tensor
 
 from emu_mps.hamiltonian import make_H, update_H
 from emu_mps.mpo import MPO
@@ -52,7 +52,9 @@ class Statistics(Observable):
         data: list[float],
         timestep_count: int,
     ):
-        super().__init__(evaluation_times=evaluation_times)
+        super().__init__(
+            evaluation_times=evaluation_times, **aggregation_kwargs("SKIP")
+        )
         self.data = data
         self.timestep_count = timestep_count
 
